@@ -24,6 +24,9 @@ var edRationales = []string{"", "", "bad", "broken build", "two\nlines", "see is
 var edComments = []string{"// c1", "// note", "//x", "// keep me", "//", "// indirect", "// Deprecated: gone", "// indirect; because"}
 var edReqSuffix = []string{"// indirect", "// indirect", "// indirect", "// indirect", "// indirect; reason", "//indirect", "// indirect;", "// note", "//", "// indirect;x", "// Indirect", "//\tindirect"}
 
+// edReqSuffixNested: end-of-line comments whose payload after the marker is again (or looks like) a marker
+var edReqSuffixNested = []string{"// indirect; indirect", "// indirect; indirect; x", "//indirect;indirect"}
+
 func edVersFor(r *Rand, path string) string {
 	_, major, ok := module.SplitPathVersion(path)
 	if !ok {
@@ -55,6 +58,9 @@ func (g *edFG) before(indent string) {
 func (g *edFG) suffix(kind string) string {
 	if kind == "require" {
 		if g.r.Chance(55) {
+			if g.r.Chance(3) {
+				return " " + g.r.Pick(edReqSuffixNested)
+			}
 			return " " + g.r.Pick(edReqSuffix)
 		}
 		return ""
